@@ -76,6 +76,19 @@ def fam_task(task):
                     add_viol(dict(what='direct fact does not hold: ' + label, finding=finding))
                 digests.add(label)
                 continue
+            if label.startswith('run_script:'):
+                st, iline, mline = tsh.compare_script(model, b''.join(scripts), cache, cfg)
+                stats[st] += 1
+                f__ = iline.split(' | ')
+                v = f__[0] == 'done' and len(f__) > 3 and f__[3] == 'ff'
+                stats['verdict-true' if v else 'verdict-false'] += 1
+                if st == 'differ' and len(dis) < 5:
+                    dis.append(dict(label=label, case=dict(script=b''.join(scripts).hex(), cache=tsh.cache_str(cache, False), cfg=cfg.to_json()), impl=iline[:600], model=mline[:600]))
+                if exp is not None and v != exp:
+                    stats['expectation-fail'] += 1
+                    add_viol(dict(what='%s: the run ended with [ff] = %s, the property requires %s' % (label, v, exp),
+                                  case=dict(script=b''.join(scripts).hex(), cache=tsh.cache_str(cache, False), cfg=cfg.to_json()), finding=finding))
+                continue
             st, iline, mline = tsh.compare_auth(model, scripts, cache, cfg)
             stats[st] += 1
             digests.add(hashlib.sha256(b''.join(scripts) + tsh.cache_str(cache, False).encode()).digest()[:8])
@@ -523,6 +536,8 @@ C09_CFGS = [
     dict(sigext=(1,)), dict(sigext=(1, 2), flags={10: False}), dict(flags={'disallow_OP_EVAL': True}),
     dict(flags={'eval_return': True}), dict(flags={'ts_threshold': 3, 'epoch_threshold': 3}),
     dict(sigext=(4,), ctplugins=((1, 'eq'),), flags={2: False, 9: False}),
+    # the same plugins registered VM-wide (add_plugin at start-up) instead of being passed to the call
+    dict(sigext=(1,), vmwide=True), dict(sigext=(1, 2), ctplugins=((1, 'eq'),), vmwide=True, flags={10: True}),
 ]
 
 
@@ -813,12 +828,14 @@ def c03_task(task):
         if rng.random() < 0.1 and nk >= 2:
             ks[1] = ks[0]                         # duplicate key in the list (raw bytecode only)
         m = rng.randint(0, nk)
-        allowed = rng.choice([0, 0, 1, 0xff])
+        allowed = rng.choice([0, 0, 1, 0xff, 0x7f, 0x80, 2, 3, rng.getrandbits(8)])
         sigs = []
         for _ in range(m):
             r = rng.random()
             signer = rng.choice(ks) if r < 0.8 else rng.randrange(len(SEEDS))
-            fl = 0 if (allowed == 0 or rng.random() < 0.6) else rng.choice([1, 0])
+            # flag variants: mostly permitted subsets of the allowed byte, now and then a flag the operand does not permit (every bit)
+            fl = rng.choice([1, 2, 0x40, 0x80, 3, 0x81, rng.getrandbits(8)])
+            fl = 0 if rng.random() < 0.5 else (fl if rng.random() < 0.25 else fl & allowed)
             s = tsh.SigningKey(SEEDS[signer]).sign(msg_spec(fl, sf)).signature
             if fl: s += bytes([fl])
             elif rng.random() < 0.15: s += b'\x00'           # 65-byte form with flag 0
